@@ -51,3 +51,90 @@ Example C01_runs :
          (fun i => nth i [1;0;0;0;2; 0;1;0;0;3; 0;0;1;0;4]%Z 0%Z) (fun _ => 7%Z)) (seq 0 11)
   = [1;2;3;0;20; 4;5;6;0;47; 7]%Z.
 Proof. vm_compute. reflexivity. Qed.
+
+(** * Tie to the source by translation (lib/cxx2v.py, re-run on every check)
+    [Gen.Generated] is produced from /repo's matmul.h, matmul_kernels.h and
+    simd_vector_abi.h on this run; the statements below are re-checked against it. *)
+From Coq Require Import Bool.
+From FastorV Require Import Base.Tiling Gen.Generated Proofs.GenEq.
+
+(** the overload selection + if-constexpr ladder of [_matmul], as translated, is the
+    model's [dispatch] for the six element types *)
+Theorem C01_source_dispatch :
+  forall c t M K N, wf_ety t -> gen_dispatch c t M K N = dispatch c t M K N.
+Proof. exact gen_dispatch_eq. Qed.
+Print Assumptions C01_source_dispatch.
+
+(** whichever kernel the translated ladder selects, the result is the product *)
+Theorem C01_matmul_exact_source_dispatch :
+  forall (S : Scalar), RingLaws S ->
+  forall (c : cfg) (t : ety) (M K N : nat) (a b c0 : nat -> S) (i j : nat),
+    wf_ety t -> 0 < K -> i < M -> j < N ->
+    run_wrs c0 (kernel_wrs c t (gen_dispatch c t M K N) M K N a b) (i * N + j) = mm_spec M K N a b i j.
+Proof.
+  intros S HS c t M K N a b c0 i j Ht HK Hi Hj. rewrite (gen_dispatch_eq c t M K N Ht).
+  exact (matmul_exact S HS c t M K N a b c0 i j HK Hi Hj).
+Qed.
+Print Assumptions C01_matmul_exact_source_dispatch.
+
+(** block constants, loops over block origins and kernel call sites of [_matmul_base]
+    and [_matmul_base_masked], as translated, are those the model's tiling is made of *)
+Theorem C01_source_blocking :
+  forall c W M K N,
+    gen_mmbase_consts (outer_block c) (inner_block c) W M K N = model_consts c W M N /\
+    gen_mmbase_masked_consts (outer_block c) (inner_block c) W M K N = model_consts c W M N /\
+    gen_mmbase_loops (outer_block c) (inner_block c) W M K N = model_loops c W M N false /\
+    gen_mmbase_masked_loops (outer_block c) (inner_block c) W M K N = model_loops c W M N true /\
+    gen_mmbase_calls (outer_block c) (inner_block c) W M K N = model_mm_calls c W M N false /\
+    gen_mmbase_masked_calls (outer_block c) (inner_block c) W M K N = model_mm_calls c W M N true.
+Proof.
+  intros. exact (conj (gen_mmbase_consts_eq c W M K N) (conj (gen_mmbase_masked_consts_eq c W M K N)
+    (conj (gen_mmbase_loops_eq c W M K N) (conj (gen_mmbase_masked_loops_eq c W M K N)
+    (conj (gen_mmbase_calls_eq c W M K N) (gen_mmbase_masked_calls_eq c W M K N)))))).
+Qed.
+Print Assumptions C01_source_blocking.
+
+(** vector width selection: the translated members of get_simd_vector_size and
+    is_exact_multiple_of_smaller_simd are the model's, and [best_abi] is built from them *)
+Theorem C01_source_vector_width :
+  forall c t N a tb,
+    gen_simd_vector_size a tb = simd_size a tb /\
+    best_abi c t N =
+    (let a := abi c in
+     if negb (simd_ty t) then 0 else
+     let '(w, is_exact, h512, h256, q512) := gen_exact_multiple a (tbytes t) N in
+     let exact_abi := if h512 || h256 then half_abi a else if q512 then 1 else a in
+     if is_exact then exact_abi else if masks c then a
+     else if N <? gen_simd_vector_size a (tbytes t) then half_abi a else a).
+Proof. intros. exact (conj (gen_simd_vector_size_eq a tb) (best_abi_via_gen c t N)). Qed.
+Print Assumptions C01_source_vector_width.
+
+(** * Floating point: the forward rounding bound of the property statement
+    Over reals with a rounding after every operation that satisfies the standard model
+    (relative error u, idempotent; FLX binary32/binary64 are instances below, i.e. IEEE
+    arithmetic without underflow/overflow), fused or unfused multiply-add: every element
+    of the product, for every configuration, kernel and shape, is within
+    ((1+u)^K - 1) * sum_k |A(i,k) B(k,j)| of the exact sum, and (1+u)^K - 1 <= K u / (1 - K u). *)
+From Coq Require Import Reals.
+From FastorV Require Import Base.Rounding Proofs.RoundingProofs.
+Theorem C01_matmul_rounding :
+  forall (rnd : R -> R) (u : R),
+    (0 <= u)%R -> (forall x, (Rabs (rnd x - x) <= u * Rabs x)%R) -> (forall x, rnd (rnd x) = rnd x) ->
+  forall (fused : bool) (c : cfg) (t : ety) (M K N : nat) (a b c0 : nat -> R) (i j : nat),
+    0 < K -> i < M -> j < N ->
+    (Rabs (matmul (S:=FS rnd fused) c t M K N a b c0 (i * N + j)%nat
+           - Rsum (fun k => a (i * K + k)%nat * b (k * N + j)%nat) K)
+     <= E u K * Rsum (fun k => Rabs (a (i * K + k)%nat * b (k * N + j)%nat)) K)%R.
+Proof. exact matmul_float_bound. Qed.
+Print Assumptions C01_matmul_rounding.
+
+Theorem C01_rounding_is_linear :
+  forall u K, (0 <= u)%R -> (INR K * u < 1)%R -> (E u K <= INR K * u / (1 - INR K * u))%R.
+Proof. exact E_linear. Qed.
+
+(** non-vacuity: round-to-nearest-even in the radix-2 formats of precision 24 and 53 *)
+Example C01_rounding_instances :
+  ((0 <= flx_u 24)%R /\ (forall x, (Rabs (flx_rnd 24 x - x) <= flx_u 24 * Rabs x)%R) /\ (forall x, flx_rnd 24 (flx_rnd 24 x) = flx_rnd 24 x)) /\
+  ((0 <= flx_u 53)%R /\ (forall x, (Rabs (flx_rnd 53 x - x) <= flx_u 53 * Rabs x)%R) /\ (forall x, flx_rnd 53 (flx_rnd 53 x) = flx_rnd 53 x)).
+Proof. exact flx_instances. Qed.
+Print Assumptions C01_rounding_instances.
